@@ -160,8 +160,7 @@ def body(tier, seed, replay):
             specs += overlap_specs(tier, rng)
         seeds = [0, 1, 2, 3, 4] if tier == 'quick' else list(range(0, 32))
         # split the spec list over parallel workers per seed: chunks
-        CH = max(1, len(specs) // 3 + 1)
-        chunks = [specs[i:i + CH] for i in range(0, len(specs), CH)]
+        chunks = [ch for ch in (specs[i::3] for i in range(3)) if ch]
         from concurrent.futures import ThreadPoolExecutor
         with ThreadPoolExecutor(len(chunks)) as ex:
             results = list(ex.map(lambda ch: run_workers(ch, seeds, tmp), chunks))
@@ -194,6 +193,8 @@ def body(tier, seed, replay):
                               'tprio': dict({'X': 0, 'Y': 0, 'Z': 0}, **sp['tprio']), 'emptyalt': sp['emptyalt'], 'multitok': bool(sp.get('multitok')),
                               'spec': {}, 'spec5': {k: sp[k] for k in sp}})
         ev.cov['counts']['grammars'] = len(cases)
+        ev.cov['counts']['overlapping_terminal_grammars'] = sum(1 for c in cases if c['multitok'])
+        ev.cov['counts']['inputs_with_several_tokenisations'] = sum(1 for c in cases if c['multitok'] for i in c['inputs'] if len(i['toks']) > 1)
         ev.cov['counts']['hash_seeds'] = len(seeds)
         ev.cov['counts']['grammars_without_empty_alternative'] = sum(1 for c in cases if not c['emptyalt'])
         ev.cov['traces_validated_against_impl'] = ev.cov['counts'].get('resolve_parses', 0)
@@ -203,7 +204,7 @@ def body(tier, seed, replay):
         if not replay and ev.cov['counts'].get('ambiguous_inputs', 0) < 250:
             raise C.MachineryFailure('vacuity: %s' % ev.cov['counts'])
         ev.assumptions += ['hash-seed/process independence is sampled (%d seeds), not proved' % len(seeds),
-                           'single-character terminals: terminal priorities add the same constant to every derivation of an input']
+                           'terminal priorities are decisive only in the overlapping-terminal family (A AB AA B BA); elsewhere they add the same constant to every derivation']
         return rep.finish()
     finally:
         shutil.rmtree(tmp, ignore_errors=True)
